@@ -72,4 +72,29 @@ def encDp (args : List String) : Option String :=
     some (showOut (fun b => "OK " ++ hexOrDash b) (serializeReady id))
   | _ => none
 
+/-- split a token list at `;` -/
+def splitSemi (toks : List String) : List (List String) :=
+  let rec go (ts : List String) (cur : List String) (acc : List (List String)) : List (List String) :=
+    match ts with
+    | [] => (cur.reverse :: acc).reverse
+    | t :: rest => if t = ";" then go rest [] (cur.reverse :: acc) else go rest (t :: cur) acc
+  go toks [] []
+
+def rt (args : List String) : String :=
+  let rec go (ms : List (List String)) (acc : Bytes) : Except String Bytes :=
+    match ms with
+    | [] => .ok acc
+    | m :: rest =>
+      match encDp m with
+      | none => .error "BADARG =>"
+      | some r =>
+        if r.startsWith "OK " then
+          match fromHex (r.drop 3).toString with
+          | some b => go rest (acc ++ b)
+          | none => .error "BADHEX =>"
+        else .error (r ++ " =>")
+  match go (splitSemi args) [] with
+  | .error e => e
+  | .ok bytes => s!"OK {hexOrDash bytes} => {decs [hexOrDash bytes]}"
+
 end Portus.Driver
